@@ -179,6 +179,10 @@ def run(prog, rep, tier):
                     fws.append((body, bl.idx, i, s))
     rep.floor('R16.3.fw', len(fws), 1, 'constructions of FileWriter')
     for body, bb, i, s in fws:
+        if 'path' not in s.rv.j['fields']:
+            rep.ob('R16.3', False, 'R16.3|%s|FileWriter.path-from-create_file' % body.nkey,
+                   'FileWriter no longer carries the vetted path returned by create_file (fields: %s): the path it opens is rebuilt from unvetted parts' % ', '.join(s.rv.j['fields']), body.loc(bb, i))
+            continue
         op = s.rv.ops[s.rv.j['fields'].index('path')]
         ok = op.place is not None and must_derive(body, op.place[0], lambda k, ob, b3: k == 'call' and cnorm(ob) == 'create_file')
         rep.ob('R16.3', ok, 'R16.3|%s|FileWriter.path-from-create_file' % body.nkey, 'FileWriter.path is the vetted path returned by create_file' if ok else 'FileWriter.path does not come from create_file', body.loc(bb, i))
